@@ -4,7 +4,7 @@ from runner import Script, Cfg
 from props import c09
 
 ID = "C07"
-THEOREMS = ["C07_state_level", "C07_history_level", "Env.the_env_ok"]
+THEOREMS = ["C07_state_level", "C07_history_level", "ClockIndep.ClockIndep_state_ok", "ClockIndep.ClockIndep_history_ok", "Env.the_env_ok"]
 MONITORS = ["C07"]
 RULE = ("scripted multi-flow interleavings (SYN / wrong-ack data / right-ack data / more data / FIN / RST / bare ACK) "
         "with seq/ack at wrap boundaries and payload lengths 0..1460, IPv4 and IPv6; every TCP reply is compared with "
